@@ -243,6 +243,28 @@ example :
     (s.delete c true true 1 50).1.blobs = [2, 0] ∧ (s.delete c false true 1 50).1.blobs = [] := by
   decide
 
+/-- **One step of the cascade queues everything it owes**: when `Delete` has removed a node
+    `h`, (a) every stored predecessor of `h` whose subject is `h` is among the referrers it
+    considers (a referrer whose bytes are missing makes the listing — and the call — fail
+    instead), and (b) every graph successor of `h` that is left without a predecessor is among
+    the danglings `Remove` reports.  The loop appends the untagged ones of both lists to its
+    queue and returns success only with an empty queue, popping a queued node either deletes
+    it or finds it already gone: together with `c09_cascade_justified` (nothing else is
+    removed) this is the "exactly" of the statement, step by step. -/
+theorem c09_cascade_step_complete (c : OciCfg) (st st' : OciSt) (h : Node) (rs dang : List Node)
+    (hr : referrers c st h = some rs) (hd : st.deleteOne h = (st', .ok dang)) :
+    (∀ p ∈ st.graph.predecessors h, c.subject p = some h → p ∈ rs ∧ p ∈ st.blobs) ∧
+    (∀ d ∈ st.graph.succs h, st.graph.nodes d = true → st'.graph.preds d = [] → d ∈ dang) := by
+  refine ⟨referrers_complete c st h rs hr, ?_⟩
+  intro d hs hn he
+  have hg := deleteOne_graph st h
+  rw [hd] at hg
+  have hdang : dang = (st.graph.remove h).2 := hg.2 dang rfl
+  have hgraph : st'.graph = (st.graph.remove h).1 := hg.1
+  rw [hdang]
+  rw [hgraph] at he
+  exact dangling_complete st.graph h d hs hn he
+
 /-- **`GC` never removes live content**: when `Store.GC` succeeds, every stored blob or
     manifest reachable from a tagged manifest through stored manifests is still stored —
     for the repaired and the shadowed subject walk, one referrer pass or the fixed point,
